@@ -21,7 +21,7 @@ RULE = (
     "partition or on a value present in the data; distinct by (old,new,filling,kind)"
 )
 ASSUMPTIONS = ["input layouts are built with from_map(..., divisions=old) so the input side does not depend on the code under test"]
-BUDGET_S = {"quick": 170, "thorough": 3000}
+BUDGET_S = {"quick": 170, "thorough": 900}
 
 KINDS = ["int", "float", "str", "dt"]
 T0 = pd.Timestamp("2000-01-03")
